@@ -3,15 +3,13 @@ package main
 import (
 	"errors"
 	"fmt"
-	"runtime"
 	"strings"
 	"sync"
-	"sync/atomic"
-	"time"
 
 	"github.com/safing/portbase/database"
 	"github.com/safing/portbase/database/query"
 	"github.com/safing/portbase/database/record"
+	"github.com/safing/portbase/formats/dsd"
 
 	"verifharness/internal/vlib"
 )
@@ -57,6 +55,9 @@ type hookRun struct {
 type rawSnap struct {
 	Exists bool   `json:"exists"`
 	Token  string `json:"token,omitempty"`
+	Secret bool   `json:"secret,omitempty"`
+	Crown  bool   `json:"crown,omitempty"`
+	Note   string `json:"note,omitempty"`
 	Err    string `json:"err,omitempty"`
 }
 
@@ -103,9 +104,14 @@ type hrun struct {
 	mu      sync.Mutex
 	calls   []hookCall
 	repls   map[string]record.Record // replacement token -> object
-	progress    atomic.Int64
-	workersDone atomic.Bool
-	inconcl     []string
+	gate    *gate
+	inconcl []string
+	// opMu keeps the raw snapshots (storage queries) apart from the operations of the
+	// other workers: hashmap's query executor takes storage lock -> record lock while
+	// InsertValue/MakeSecret/... take record lock -> storage lock, and the two can
+	// deadlock (a backend matter outside C14; see the report). Operations share the
+	// lock, a snapshot takes it exclusively.
+	opMu sync.RWMutex
 }
 
 func parseKeyWN(dbKey string) (w, n int) {
@@ -209,19 +215,13 @@ func (h *hookRun) cancelAgain() {
 	}
 }
 
-func (hr *hrun) waitProgress(n int) {
-	for i := 0; hr.progress.Load() < int64(n) && !hr.workersDone.Load(); i++ {
-		if i%8 == 7 {
-			time.Sleep(20 * time.Microsecond)
-		} else {
-			runtime.Gosched()
-		}
-	}
-}
+func (hr *hrun) waitProgress(n int) { hr.gate.wait(n) }
 
 // raw reads the stored record of one key without passing any hook (Query goes to the
 // storage directly).
 func (hr *hrun) raw(key string) rawSnap {
+	hr.opMu.Lock()
+	defer hr.opMu.Unlock()
 	it, err := hr.iface.Query(query.New(hr.w.db + ":" + key))
 	if err != nil {
 		return rawSnap{Err: errString(err)}
@@ -230,7 +230,12 @@ func (hr *hrun) raw(key string) rawSnap {
 	for r := range it.Next {
 		k, tok, _, _, _ := ident(r)
 		if k == key {
-			s.Exists, s.Token = true, tok
+			// the key belongs to the calling worker and no operation on it is in
+			// progress: meta and Note may be read
+			s.Exists, s.Token, s.Note = true, tok, noteOf(r)
+			if m := r.Meta(); m != nil {
+				s.Secret, s.Crown = !m.CheckPermission(true, false), !m.CheckPermission(false, true)
+			}
 		}
 	}
 	if e := it.Err(); e != nil {
@@ -265,6 +270,13 @@ func (wk *hworker) do(hr *hrun, op *OpSpec) {
 		rec.Score, rec.Tag = op.Score, op.Tag
 		fn = func() error { return hr.iface.Put(nr) }
 		after = func() { wk.keys[key] = &hkeyState{exists: true, score: op.Score, tag: op.Tag} }
+	case "secret":
+		fn = func() error { return hr.iface.MakeSecret(full) }
+	case "crown":
+		fn = func() error { return hr.iface.MakeCrownJewel(full) }
+	case "insert":
+		note := fmt.Sprintf("n%d", rec.Idx)
+		fn = func() error { return hr.iface.InsertValue(full, "Note", note) }
 	case "del":
 		fn = func() error { return hr.iface.Delete(full) }
 		after = func() {
@@ -283,9 +295,11 @@ func (wk *hworker) do(hr *hrun, op *OpSpec) {
 	if op.Kind != "get" {
 		rec.Before = hr.raw(key)
 	}
+	hr.opMu.RLock()
 	rec.Call = tick()
 	err, pnc, _ := guarded(fn)
 	rec.Ret = tick()
+	hr.opMu.RUnlock()
 	if op.Kind != "get" {
 		rec.After = hr.raw(key)
 	}
@@ -298,11 +312,11 @@ func (wk *hworker) do(hr *hrun, op *OpSpec) {
 	if rec.OK {
 		after()
 	}
-	hr.progress.Add(1)
+	hr.gate.add()
 }
 
 func runHooks(w *world, sc *Scenario) *hrun {
-	hr := &hrun{w: w, sc: sc, repls: map[string]record.Record{},
+	hr := &hrun{w: w, sc: sc, gate: newGate(), repls: map[string]record.Record{},
 		iface: database.NewInterface(&database.Options{Local: true, Internal: true})}
 	installHooks(w)
 	for i := range sc.Hooks {
@@ -354,7 +368,7 @@ func runHooks(w *world, sc *Scenario) *hrun {
 		}()
 	}
 	wwg.Wait()
-	hr.workersDone.Store(true)
+	hr.gate.finish()
 	cwg.Wait()
 	// epilogue: cancel what is to be cancelled at the end, then one more round of
 	// operations on every key: a cancelled hook must not see any of them
@@ -484,7 +498,7 @@ func (hr *hrun) judge(b *vlib.Batch) {
 				phases = []string{"preget", "postget"}
 			case "put":
 				phases = []string{"preput"}
-			case "del":
+			case "del", "secret", "crown", "insert":
 				phases = []string{"preget", "postget", "preput"}
 			}
 			mandatory := map[hp]bool{}
@@ -509,7 +523,7 @@ func (hr *hrun) judge(b *vlib.Batch) {
 						optional = op.Deleted
 					case "preput":
 						applies = h.spec.PrePut && strings.HasPrefix(op.Key, h.spec.Prefix) && h.spec.Cond.eval(op.Score, op.Tag)
-						if op.Kind == "del" {
+						if op.Kind != "put" {
 							applies = applies && op.Loaded && !op.Deleted
 						}
 					}
@@ -531,10 +545,8 @@ func (hr *hrun) judge(b *vlib.Batch) {
 					reached = phaseRank[obs[i].Phase]
 				}
 			}
-			if op.Kind == "get" || op.Kind == "del" {
-				if !op.OK && op.VetoBy < 0 && op.Kind == "del" {
-					reached = 1 // a delete that failed without veto did not come to the put part
-				}
+			if !op.OK && op.VetoBy < 0 && op.Kind != "get" && op.Kind != "put" {
+				reached = 1 // a load-modify-put that failed without veto did not come to the put part
 			}
 			seen := map[hp]int{}
 			for _, c := range obs {
@@ -649,6 +661,20 @@ func (hr *hrun) judge(b *vlib.Batch) {
 			b.Violation("C14:hook-unexpected-call:"+c.Phase+":foreign-key", "a hook was called for a key no worker operates on", hr.witness(map[string]any{"call": c}))
 		}
 	}
+}
+
+func noteOf(r record.Record) string {
+	switch v := r.(type) {
+	case *Rec:
+		return v.Note
+	case *record.Wrapper:
+		var t struct{ Note string }
+		if len(v.Data) > 0 {
+			_ = dsd.LoadAsFormat(v.Data, v.Format, &t)
+		}
+		return t.Note
+	}
+	return ""
 }
 
 func vetoPhase(c *hookCall) string {
